@@ -2,6 +2,7 @@ package props
 
 import (
 	"bytes"
+	"fmt"
 
 	"github.com/ontio/ontology-crypto/keypair"
 	"github.com/ontio/ontology/account"
@@ -18,7 +19,7 @@ func init() {
 	simkit.Register(&simkit.Prop{
 		ID:             "C20",
 		Desc:           "block encoding round-trips and binds the transaction list",
-		Rule:           "a run = 6..30 blocks with 0..6 generated signed transactions and 1..4 bookkeeper signatures, each sent as bytes and altered in flight by a tape-chosen fault: none / transactions reordered / one duplicated / one dropped / one replaced by another valid transaction / transaction count field changed / a byte flipped in a tape-chosen header field (version, previous hash, transactions root, block root, timestamp, height, consensus data, consensus payload, next bookkeeper) / bookkeeper list or signatures changed only / random byte flip / truncation. For every byte string the decoder (BlockFromRawBytes) accepts: ToArray() equals the consumed prefix of the input; the header's transaction root equals the merkle root of the decoded transactions' hashes; no transaction hash occurs twice; if only bookkeepers/signatures were changed the block hash is unchanged; if any other header field was changed the block hash differs from the original. non-trivial = >= 2 accepted altered blocks evaluated and >= 2 rejected; distinct = distinct event-trace hash",
+		Rule:           "a run = 6..30 blocks with 0..14 generated signed transactions and 1..4 bookkeeper signatures, each sent as bytes and altered in flight by a tape-chosen fault: none / transactions reordered / one duplicated / the last 1, 2 or 4 repeated at the end (same merkle root when the tree level is odd) / one dropped / one replaced by another valid transaction / transaction count field changed / a byte flipped in a tape-chosen header field (version, previous hash, transactions root, block root, timestamp, height, consensus data, consensus payload, next bookkeeper) / bookkeeper list or signatures changed only / a length prefix or count of the header (consensus payload, bookkeeper list and items, signature list and items) re-encoded non-minimally / random byte flip / truncation. For every byte string the decoder (BlockFromRawBytes) accepts: ToArray() equals the consumed prefix of the input; the header's transaction root equals the merkle root of the decoded transactions' hashes; no transaction hash occurs twice; if only bookkeepers/signatures were changed the block hash is unchanged; if any other header field was changed the block hash differs from the original. non-trivial = >= 2 accepted altered blocks evaluated and >= 2 rejected; distinct = distinct event-trace hash",
 		Real:           []string{"core/types block and header codecs", "core/types transaction codec", "common.ComputeMerkleRoot"},
 		Stub:           []string{"block producer and corrupting link (harness)"},
 		Assumptions:    []string{"the only simulator dimension is in-flight corruption by a faulty peer; exploration over generated corruptions, not all byte strings"},
@@ -49,7 +50,7 @@ func runC20(c *simkit.Ctx) {
 	evaluated, rejected := 0, 0
 	for i := 0; i < n; i++ {
 		var txs []*types.Transaction
-		for k, ntx := 0, t.Choose(7); k < ntx; k++ {
+		for k, ntx := 0, t.Pick(1, 2, 2, 2, 2, 2, 3, 1, 1, 1, 2, 1, 2, 1, 1); k < ntx; k++ {
 			txs = append(txs, c20Tx(c, w))
 		}
 		hdr := &types.Header{Version: uint32(t.Choose(2)), Timestamp: uint32(1600000000 + t.Choose(1000000)), Height: uint32(1 + t.Choose(100000)),
@@ -78,8 +79,8 @@ func runC20(c *simkit.Ctx) {
 			off, len int
 		}{{"version", 0, 4}, {"prev-hash", 4, 32}, {"tx-root", 36, 32}, {"block-root", 68, 32}, {"timestamp", 100, 4}, {"height", 104, 4},
 			{"consensus-data", 108, 8}, {"consensus-payload", 117, len(hdr.ConsensusPayload)}, {"next-bookkeeper", 117 + len(hdr.ConsensusPayload), 20}}
-		fault := t.Pick(2, 3, 2, 2, 2, 2, 5, 3, 2, 1)
-		name := []string{"none", "reorder-txs", "duplicate-tx", "drop-tx", "replace-tx", "tx-count-field", "header-field", "signers-only", "flip-byte", "truncate"}[fault]
+		fault := t.Pick(2, 3, 2, 2, 2, 2, 5, 3, 2, 1, 3, 4)
+		name := []string{"none", "reorder-txs", "duplicate-tx", "drop-tx", "replace-tx", "tx-count-field", "header-field", "signers-only", "flip-byte", "truncate", "repeat-trailing-txs", "nonminimal-varint"}[fault]
 		in := append([]byte(nil), raw...)
 		rebuild := func(newTxs []*types.Transaction) []byte {
 			// header bytes unchanged (root not updated), transaction list as given
@@ -158,6 +159,44 @@ func runC20(c *simkit.Ctx) {
 			in[t.Choose(len(in))] ^= byte(1 + t.Choose(255))
 		case 9:
 			in = in[:t.Choose(len(in))]
+		case 11:
+			// a length prefix or count of the header re-encoded non-minimally
+			var pos []int
+			pos = append(pos, 116) // consensus payload length
+			p := unsignedLen
+			pos = append(pos, p) // bookkeeper count
+			p++
+			for range hdr.Bookkeepers {
+				pos = append(pos, p)
+				p += 1 + int(raw[p])
+			}
+			pos = append(pos, p) // signature count
+			p++
+			for range hdr.SigData {
+				pos = append(pos, p)
+				p += 1 + int(raw[p])
+			}
+			if txStart := len(raw) - func() int {
+				sk := common.NewZeroCopySink(nil)
+				for _, tx := range txs {
+					tx.Serialization(sk)
+				}
+				return len(sk.Bytes())
+			}() - 4; p != txStart {
+				c.Harness("header walk ended at %d, transactions start at %d", p, txStart)
+			}
+			q := pos[t.Choose(len(pos))]
+			v := in[q]
+			enc := [][]byte{{0xfd, v, 0}, {0xfe, v, 0, 0, 0}, {0xff, v, 0, 0, 0, 0, 0, 0, 0}}[t.Choose(3)]
+			in = append(append(append([]byte{}, in[:q]...), enc...), in[q+1:]...)
+			name += fmt.Sprintf("/at-%d", q-unsignedLen)
+		case 10:
+			// the last 1, 2 or 4 transactions once more (the merkle tree repeats the
+			// last node of an odd level, so such a list can have the same root)
+			if k := 1 << uint(t.Choose(3)); k <= len(txs) {
+				in = rebuild(append(append([]*types.Transaction{}, txs...), txs[len(txs)-k:]...))
+				name += fmt.Sprintf("/%d-of-%d", k, len(txs))
+			}
 		}
 		_ = unsignedLen
 		c.Logf("block %d txs=%d signers=%d fault=%s len=%d", i, len(txs), nb, name, len(in))
